@@ -928,7 +928,12 @@ def perturb_node(ctx, reg, node, positions, rng, stats, tag):
         if isinstance(op, Expr):
             continue
         pname = params[i] if i < len(params) else "*"
-        for nb in neighbours(op, rng):
+        nbs = neighbours(op, rng)
+        if "meta" in pname and (op is None or isinstance(op, np.ndarray)):
+            # meta hints: another array type/dtype hint of the same rank (validates the `nonSemantic` exceptions)
+            ranks = {len(base_cheap[0])} | ({op.ndim} if isinstance(op, np.ndarray) else set())
+            nbs = [np.empty((0,) * k, dtype="float32") for k in sorted(ranks)] + ([None] if op is not None else [])
+        for nb in nbs:
             ops = list(node.operands)
             ops[i] = nb
             reg.last_raw = None
